@@ -23,6 +23,7 @@ EXPLANATION = (
     "self.request only in command classes that are never instantiated at module / class level. Observational equivalence of "
     "interleaved and solo runs is not decided."
     ' (R5) no module- or class-level binding holds an exhaustible iterator (generator expression, chain, map, filter, zip, iter ...) that a function reads.'
+    ' (R3) attributes of class objects assigned from functions are process-wide state (exempt: a transaction counter written only in ModbusTcpProtocolCommand.request_bytes and read nowhere else).'
 )
 
 MUTATORS = {"append", "extend", "insert", "pop", "remove", "clear", "update", "setdefault", "popitem", "sort", "reverse", "add", "discard"}
